@@ -4,7 +4,7 @@ import check as CK
 from props import coordcommon as CC
 
 TRANSLATORS = ["enums", "defender", "dispatch"]
-COQ_FILES = ["Props/C06.v", "Obl/DispatchOk.v", "Obl/EnumsOk.v"]
+COQ_FILES = ["Props/C06.v", "Props/C04_reason.v", "Obl/DispatchOk.v", "Obl/EnumsOk.v"]
 
 
 def correspondence(ctx):
